@@ -196,8 +196,9 @@ def doc_enum(base, custom, pv, use):
     return add_messages(d)
 
 
-def doc_literal(where, o1, o2, name_idx):
-    """anonymous literal type as a property type / array element / union member"""
+def doc_literal(where, o1, o2, name_idx, inh=0):
+    """anonymous literal type as a property type / array element / union member / below a union member;
+    optionally on a structure that another structure (listed before or after it) extends"""
     d = base_doc()
     p1 = {"name": NAMES[name_idx], "type": {"kind": "base", "name": "string"}}
     p2 = {"name": "detailInfo", "type": {"kind": "or", "items": [{"kind": "base", "name": "string"}, {"kind": "base", "name": "null"}]}}
@@ -211,7 +212,18 @@ def doc_literal(where, o1, o2, name_idx):
         t = {"kind": "array", "element": lit}
     elif where == 2:
         t = {"kind": "or", "items": [{"kind": "base", "name": "string"}, lit]}
-    d["structures"].append({"name": "P", "properties": [{"name": "clientInfo", "type": t}, {"name": "id", "type": {"kind": "base", "name": "integer"}}]})
+    elif where == 3:
+        t = {"kind": "or", "items": [{"kind": "array", "element": lit}, {"kind": "base", "name": "null"}]}
+    elif where == 4:
+        t = {"kind": "array", "element": {"kind": "or", "items": [lit, {"kind": "base", "name": "string"}]}}
+    P = {"name": "P", "properties": [{"name": "clientInfo", "type": t}, {"name": "id", "type": {"kind": "base", "name": "integer"}}]}
+    child = {"name": "Child", "properties": [{"name": "extra", "type": {"kind": "base", "name": "boolean"}, "optional": True}], "extends": [{"kind": "reference", "name": "P"}]}
+    if inh == 1:
+        d["structures"] += [child, P]
+    elif inh == 2:
+        d["structures"] += [P, child]
+    else:
+        d["structures"].append(P)
     return add_messages(d)
 
 
@@ -526,7 +538,7 @@ def evaluate(plugin, doc, prop=None):
     return (["%s: %s of %s: expected %r, emitted %r" % (plugin, k[-1], ".".join(str(x) for x in k[:-1] if x != ""), w, g) for k, w, g in new[:8]], known)
 
 
-FAMILY_RANGES = {"types": [NSHAPE, len(BASES), 3, 3, len(NAMES)], "marks": [2] * 8, "messages": [2, 2, 3, 3, 2, 4], "graph": [3] * 6, "enum": [3, 3, 2, 3], "literal": [3, 2, 2, len(NAMES)], "alias": [7, 4, 3]}
+FAMILY_RANGES = {"types": [NSHAPE, len(BASES), 3, 3, len(NAMES)], "marks": [2] * 8, "messages": [2, 2, 3, 3, 2, 4], "graph": [3] * 6, "enum": [3, 3, 2, 3], "literal": [5, 2, 2, len(NAMES), 3], "alias": [7, 4, 3]}
 
 
 def _concretize(f, n):
@@ -636,7 +648,8 @@ def tiny_lemmas(plugins, tier):
         for e32 in range(3):
             add(plugin, "graph", "e%d" % e32, ["e31", "e30", "e21", "e20", "e10"], [3] * 5, "%d, e31, e30, e21, e20, e10" % e32, {"e32": e32})
         add(plugin, "enum", "all", ["base", "custom", "pv", "use"], [3, 3, 2, 3], "base, custom, pv, use", {})
-        add(plugin, "literal", "all", ["where", "o1", "o2", "name_idx"], [3, 2, 2, len(NAMES)], "where, o1, o2, name_idx", {})
+        for inh in range(3):
+            add(plugin, "literal", "i%d" % inh, ["where", "o1", "o2", "name_idx"], [5, 2, 2, len(NAMES)], "where, o1, o2, name_idx, %d" % inh, {"inh": inh})
         add(plugin, "alias", "all", ["kind", "extra", "used"], [7, 4, 3], "kind, extra, used", {})
     return L
 
